@@ -861,7 +861,7 @@ def _huge_case(draw, tier):
         shape.insert(draw(st.integers(0, len(shape))), 1)  # a singleton mode (squeeze)
     shape = shape[:5]
     total = ref.prod(shape)
-    nnz = draw(st.integers(0, 5))
+    nnz = draw(st.sampled_from([1, 2, 3, 4, 5, 3, 0]))
     subs = []
     for _ in range(nnz):
         sub = []
